@@ -17,20 +17,23 @@ class ElementQuadN1(ElementHcurl):
     refdom = RefQuad
 
     def lbasis(self, X, i):
+        # the tangential component of each basis function has the same sign
+        # with respect to the direction of its facet in RefQuad.facets, as
+        # assumed by ElementHcurl.orient
         x, y = X
         nil = np.zeros_like(x)
         if i == 0:
             phi = np.array([y - 1.0, nil])
             dphi = -np.ones_like(x)
         elif i == 1:
-            phi = np.array([nil, x])
-            dphi = np.ones_like(x)
+            phi = np.array([nil, -x])
+            dphi = -np.ones_like(x)
         elif i == 2:
             phi = np.array([y, nil])
             dphi = -np.ones_like(x)
         elif i == 3:
-            phi = np.array([nil, 1.0 - x])
-            dphi = -np.ones_like(x)
+            phi = np.array([nil, x - 1.0])
+            dphi = np.ones_like(x)
         else:
             self._index_error()
         return phi, dphi
